@@ -27,7 +27,7 @@ RULE = ('fp16: every 16-bit pattern once unsigned and once as int16 (exhaustive)
 ASSUMPTIONS = ['numpy.float16 conversion is IEEE-754 binary16', 'struct module packs float32 correctly',
                'LED ring memory layout: byte0=RRRRRGGG byte1=GGGBBBBB (firmware ledring12 reader)']
 REQUIRED = ['mon.fp16', 'mon.quat', 'mon.traj', 'mon.led', 'mon.led_timing', 'mon.range', 'mon.lh_angle',
-            'mon.fp16_contract']
+            'mon.fp16_contract', 'mon.traj_segment_boundary_values']
 EXHAUSTIVE = {'quick': False, 'thorough': False}
 EXHAUSTIVE_NOTE = 'the fp16 part (131 072 evaluations) is exhaustive in both tiers; the other parts are sampled'
 
@@ -290,6 +290,27 @@ def run_traj(desc, ctx):
                 if j != idx and f[j] != 0:
                     ctx.violate('traj:start-field-crosstalk', {'args': args, 'fields': f})
             check_one(kind, val, f[idx], None)
+    # the same values through a segment element (one value per axis position): overflow must raise there too
+    for i, v in enumerate(vals[::3]):
+        y = math.radians(v * 100)
+        for kind, val, ax in (('s', v, i % 3), ('y', y, 3)):
+            n_el = (1, 3, 7)[i % 3]
+            pos = i % n_el
+            els = [[], [], [], []]
+            els[ax] = [0.0] * n_el
+            els[ax][pos] = val
+            try:
+                data = bytes(CompressedSegment(1.0, *els).pack())
+            except Exception as e:  # noqa
+                check_one(kind, val, None, type(e).__name__)
+                ctx.count('mon.traj_segment_boundary_values')
+                continue
+            body = struct.unpack('<%dh' % n_el, data[3:]) if len(data) == 3 + 2 * n_el else None
+            if body is None or any(b != 0 for k, b in enumerate(body) if k != pos):
+                ctx.violate('traj:segment-layout', {'els': els, 'data': data})
+                continue
+            check_one(kind, val, body[pos], None)
+            ctx.count('mon.traj_segment_boundary_values')
     # segments: layout + same fixed point
     nseg = 0
     for _ in range(max(50, desc['n'] // 20)):
